@@ -44,7 +44,7 @@ class FakeS3:
         self.s.point("s3.create:begin")
         self.n += 1
         uid = f"U{self.n}"
-        self.calls.append(("create", uid))
+        self.calls.append(("create", uid, Bucket, Key))
         self.s.point("s3.create:end")
         return {"UploadId": uid}
 
@@ -53,14 +53,14 @@ class FakeS3:
         k = self.nparts_called
         self.nparts_called += 1
         if k == self.fail_at:
-            self.calls.append(("part-failed", PartNumber, UploadId))
+            self.calls.append(("part-failed", PartNumber, UploadId, Bucket, Key))
             raise TransientStorageError(f"injected failure of upload_part call #{k}")
-        self.calls.append(("part", PartNumber, UploadId))
+        self.calls.append(("part", PartNumber, UploadId, Bucket, Key))
         return {"ETag": f'"e{PartNumber}"'}
 
     def complete_multipart_upload(self, Bucket, Key, UploadId, MultipartUpload):
         self.s.point("s3.complete")
-        self.calls.append(("complete", UploadId, tuple(p["PartNumber"] for p in MultipartUpload["Parts"])))
+        self.calls.append(("complete", UploadId, tuple(p["PartNumber"] for p in MultipartUpload["Parts"]), Bucket, Key))
         return {"ETag": '"final"'}
 
 
@@ -132,7 +132,21 @@ SETUPS = ("local-shared", "cluster-shared", "cluster-copies",
           # environment deviation: the k-th upload_part call (in call order) fails once with a transient error and the
           # worker repeats that write, as a task retry does; still one upload, every stored part under its id
           "local-shared-fault0", "local-shared-fault1", "cluster-shared-fault0", "cluster-shared-fault1",
-          "cluster-copies-fault0", "cluster-copies-fault1")
+          "cluster-copies-fault0", "cluster-copies-fault1",
+          # TWO different objects written in one session (worker k writes to object k % 2): each object gets its own single
+          # upload whatever the two (bucket, key) spellings are - incl. pairs whose joined text coincides
+          "cluster-copies-2obj:distinct", "cluster-copies-2obj:same-joined-text", "cluster-copies-2obj:same-joined-text2",
+          "cluster-copies-2obj:same-key-other-bucket", "cluster-copies-2obj:same-bucket-other-key", "cluster-copies-2obj:key-prefix",
+          "cluster-shared-2obj:same-joined-text", "local-shared-2obj:same-joined-text")
+
+TWO_OBJECTS = {
+    "distinct": (("bucket", "a.tif"), ("other", "b.tif")),
+    "same-joined-text": (("my-data", "a.tif"), ("my", "data-a.tif")),
+    "same-joined-text2": (("bkt", "x/y.tif"), ("bkt/x", "y.tif")),
+    "same-key-other-bucket": (("bucket1", "key.tif"), ("bucket2", "key.tif")),
+    "same-bucket-other-key": (("bucket", "key1.tif"), ("bucket", "key2.tif")),
+    "key-prefix": (("bucket", "key.tif"), ("bucket", "key.tif.ovr")),
+}
 
 
 def make_system(setup: str, nthreads: int, with_finalise: bool):
@@ -141,6 +155,10 @@ def make_system(setup: str, nthreads: int, with_finalise: bool):
         retry = setup.endswith("-retry")
         base_setup = setup[: -len("-retry")] if retry else setup
         fail_at = None
+        two = None
+        if "-2obj:" in setup:
+            base_setup, _, kind2 = setup.partition("-2obj:")
+            two = TWO_OBJECTS[kind2]
         if "-fault" in setup:
             base_setup, _, k_ = setup.partition("-fault")
             fail_at = int(k_)
@@ -160,6 +178,10 @@ def make_system(setup: str, nthreads: int, with_finalise: bool):
             s.mark = 0
 
             def new_writers():
+                if two is not None:
+                    ws = [_s3.MultiPartUpload(b, k).writer({"ContentType": "image/tiff"}, client=client) for b, k in two]
+                    writers[:] = [copy.deepcopy(ws[i % 2]) if base_setup == "cluster-copies" else ws[i % 2] for i in range(nthreads)]
+                    return
                 mpu = _s3.MultiPartUpload("bucket", "key.tif")
                 writer = mpu.writer({"ContentType": "image/tiff"}, client=client)  # prep_client when clustered
                 writers[:] = [copy.deepcopy(writer) if base_setup == "cluster-copies" else writer for _ in range(nthreads)]
@@ -294,6 +316,22 @@ def judge(x: sched.Sched, setup: str, nthreads: int, with_finalise: bool):
             raise err  # harness bug
         out.append((f"worker-exception:{type(err).__name__}@{site}:{setup}", f"{name}: {type(err).__name__}: {err}"))
     calls = x.s3.calls[getattr(x, "mark", 0):]  # for retries: what the NEW writer's workers did
+    if "-2obj:" in setup:
+        objs = TWO_OBJECTS[setup.partition("-2obj:")[2]]
+        for oi, (b, k) in enumerate(objs):
+            mine = [c for c in calls if c[-2:] == (b, k)]
+            cr = [c for c in mine if c[0] == "create"]
+            nworkers = len([i for i in range(nthreads) if i % 2 == oi])
+            if len(cr) != 1:
+                out.append((f"initiations:{len(cr)}:{setup}", f"object #{oi} s3://{b}/{k}: create_multipart_upload called {len(cr)} times; all calls {calls}"))
+                continue
+            bad = [c for c in mine if c[0] == "part" and c[2] != cr[0][1]]
+            if bad:
+                out.append((f"wrong-upload-id:{setup}", f"object #{oi} s3://{b}/{k}: {bad} under upload {cr[0][1]}"))
+            np_ = len([c for c in mine if c[0] == "part"])
+            if not out and np_ != nworkers:
+                out.append((f"parts-missing:{setup}", f"object #{oi} s3://{b}/{k}: {np_} parts uploaded by {nworkers} workers"))
+        return out
     creates = [c for c in calls if c[0] == "create"]
     if len(creates) != 1:
         out.append((f"initiations:{len(creates)}:{setup}", f"create_multipart_upload called {len(creates)} times: {calls}"
@@ -373,7 +411,9 @@ NPART = 8
 def sched_cases(tier):
     # (setup, threads, with_finalise, preemption bound, part of the schedule tree)
     for setup in SETUPS:
-        if "-fault" in setup:
+        if "-2obj:" in setup:
+            base = [(setup, 2, False, 1), (setup, 3, False, 1)] if tier == "quick" else [(setup, 2, False, 2), (setup, 3, False, 2), (setup, 4, False, 1)]
+        elif "-fault" in setup:
             base = [(setup, 2, True, 1)] if tier == "quick" else [(setup, 2, True, 2), (setup, 3, True, 1)]
         elif tier == "quick" and setup.endswith("-retry"):
             base = [(setup, 2, True, 1), (setup, 3, False, 1)]
@@ -419,9 +459,36 @@ def gen_sink():
                     yield (sizes, base, keep)
 
 
+# part NUMBERS: around every change in the number of digits (part files are named after the number), sparse, zero-based,
+# up to the default maximum (10000) and beyond it with a configured maximum; the list handed to finalise is in ascending
+# or in descending part order - "the order given" decides, not the numbers
+PART_ID_SCHEMES = {
+    "1..n": ((1, 2, 3, 4), {}),
+    "sparse": ((1, 7, 300, 4242), {}),
+    "digits-9-10": ((8, 9, 10, 11), {}),
+    "digits-99-100": ((98, 99, 100, 101), {}),
+    "digits-999-1000": ((998, 999, 1000, 1001), {}),
+    "digits-9999-10000": ((9997, 9998, 9999, 10000), {}),
+    "beyond-default-max": ((9999, 10000, 10001, 123456), dict(max_part=200000)),
+    "digits-99999-100000": ((99998, 99999, 100000, 100001), dict(max_part=1000000)),
+    "zero-based": ((0, 1, 2, 3), dict(min_part=0)),
+    "from-min-part": ((7, 8, 9, 10), dict(min_part=7)),
+}
+
+
+def gen_sink_ids():
+    for scheme in PART_ID_SCHEMES:
+        for n in (2, 3, 4):
+            for order in ("ascending", "descending"):
+                for base in ("none", "otherdir"):
+                    yield ((5, 1, 3, 2)[:n], base, False, scheme, order)
+
+
 def run_sink(case):
-    sizes, base, keep = case
-    r = R(outcome=f"n{len(sizes)}:{base}:keep{int(keep)}", nontrivial=sum(sizes) > 0)
+    sizes, base, keep = case[:3]
+    scheme, order = (case[3], case[4]) if len(case) > 3 else ("1..n", "ascending")
+    ids, limits_kw = PART_ID_SCHEMES[scheme]
+    r = R(outcome=f"n{len(sizes)}:{base}:keep{int(keep)}" + (f":{scheme}:{order}" if len(case) > 3 else ""), nontrivial=sum(sizes) > 0)
     td = tempfile.mkdtemp(prefix="vf-c18-")
     extra = None
     try:
@@ -433,14 +500,18 @@ def run_sink(case):
         elif base == "otherfs":
             extra = tempfile.mkdtemp(prefix="vf-c18-", dir=_other_fs())
             parts_base = extra
-        sink = _mpu_fs.MPUFileSink(dst, parts_base=parts_base)
+        sink = _mpu_fs.MPUFileSink(dst, parts_base=parts_base, **limits_kw)
         datas = [bytes([65 + i]) * sz for i, sz in enumerate(sizes)]
         # written out of order on purpose: finalise must honour the order of the list it is given
         receipts = {}
         for i in reversed(range(len(datas))):
-            receipts[i] = sink(i + 1, datas[i])
+            receipts[i] = sink(ids[i], datas[i])
         parts = [receipts[i] for i in range(len(datas))]
         cls = f"{base}:{'empty-part' if 0 in sizes[1:] else 'empty-first' if sizes[0] == 0 else 'nonempty'}"
+        if len(case) > 3:
+            cls += f":ids-{scheme}:{order}"
+            if order == "descending":
+                parts, datas = parts[::-1], datas[::-1]
         try:
             out = sink.finalise(parts, keep_parts=keep) if keep else sink.finalise(parts)
         except Exception as e:  # pylint: disable=broad-except
@@ -462,6 +533,9 @@ def run_sink(case):
         if extra:
             shutil.rmtree(extra, ignore_errors=True)
 
+
+SINK_IDS_SLICE = ("sink-part-numbers", gen_sink_ids, run_sink,
+                  "part numbers around every digit-count change, sparse, zero-based, beyond the default maximum x list order")
 
 LIMITS = {
     # 0 is a legitimate minimum (no lower bound / zero-based part numbers) and must be reported as configured
@@ -536,6 +610,7 @@ def main(ctx):
     slices = [
         e1.Slice("schedules", lambda: iter(sc), run_sched_case, "E3a preemption-bounded exploration", shards=len(sc)),
         e1.Slice("filesink", gen_sink, run_sink, "MPUFileSink write + finalise"),
+        e1.Slice(*SINK_IDS_SLICE),
         e1.Slice("limits", gen_limits, run_limits, "limit accessors"),
     ]
     if ctx.only:
